@@ -81,13 +81,19 @@ def run_impl(case, k, dtype, agg_obj=None, inputs_override="same"):
     for t, vals in case["old"].items():
         ts[int(t)].grad = torch.tensor(vals, dtype=dtype).reshape(prog.shapes[int(t)])
     inputs = case["inputs"] if inputs_override == "same" else inputs_override
-    res = {"error": None}
+    res = {"error": None, "agg_calls": []}
+    agg_o = agg_obj or mk_agg(case["agg"], dtype)
+    # the statement is about aggregator(J): the aggregator must be APPLIED, once, to the Jacobian
+    handle = agg_o.register_forward_hook(
+        lambda mod, args, out: res["agg_calls"].append(args[0].detach().to(torch.float64).tolist()))
     try:
-        backward([ts[o] for o in case["outs"]], agg_obj or mk_agg(case["agg"], dtype),
+        backward([ts[o] for o in case["outs"]], agg_o,
                  inputs=None if inputs is None else [ts[i] for i in inputs],
                  parallel_chunk_size=k)
     except Exception as e:  # noqa: BLE001
         res["error"] = type(e).__name__
+    finally:
+        handle.remove()
     grads = {}
     for t in range(prog.n()):
         if prog.is_leaf[t]:
@@ -220,9 +226,22 @@ def judge_case(chk, case, model_runs):
                     bad = (f".grad of leaf {t} after backward differs from old + own slice of "
                            f"aggregator(J): got {res['grads'].get(t)}, expected "
                            f"{None if exp[t] is None else [str(x) for x in exp[t]]}")
+                elif dtype == torch.float64:
+                    ord_ = effective_inputs(case, prog)
+                    J = jac_ref(case, prog, ord_) if ord_ else []
+                    if J and J[0]:
+                        calls = res["agg_calls"]
+                        cols = lambda M: sorted(tuple(float(M[i][j]) for i in range(len(M))) for j in range(len(M[0])))  # noqa: E731
+                        if len(calls) != 1:
+                            bad = f"the aggregator was applied {len(calls)} times instead of once to the Jacobian"
+                        elif len(calls[0]) != len(J) or not calls[0] or len(calls[0][0]) != len(J[0]) or cols(calls[0]) != cols(J):
+                            bad = ("the matrix handed to the aggregator is not the Jacobian (rows = scalars of "
+                                   "`tensors` in the given order, columns = scalars of `inputs`)")
             if bad:
-                chk.violation(f"C01 {bad} (chunk={k}, {dtype})",
-                              {"kind": "c01", "case": case, "k": k, "dtype": str(dtype)})
+                structural = bad.startswith("the aggregator was applied") or bad.startswith("the matrix handed")
+                chk.violation(f"C01 {'correspondence (model: A applied to the Jacobian): ' if structural else ''}{bad} "
+                              f"(chunk={k}, {dtype})",
+                              {"kind": "c01", "case": case, "k": k, "dtype": str(dtype)}, no_input=structural)
                 ok = False
                 break
         if not ok:
@@ -305,8 +324,47 @@ def oracle_other_aggs(chk, case, rng):
             return
 
 
+def extreme_intermediate_probe(chk, only=None):
+    """J moderate, intermediates extreme: h = (x*b) * 2^-E, y_k = ((k+1) * h * 2^E).sum() with 2^E just below
+    the largest finite number of the dtype.  Every row of J is (k+1)*b (exactly), aggregator(J) is
+    moderate; anything that sums the rows' cotangents at h before scaling back (one weighted backward
+    pass instead of the Jacobian) leaves the floating-point range.  Legal inputs of C01's quantifier."""
+    ok = True
+    for dtype, E in ((torch.float32, 126), (torch.float64, 1022)):
+        for name, mk, w in (("Sum", lambda: Sum(), [1, 1, 1]), ("Mean", lambda: Mean(), [F3, F3, F3]),
+                            ("Constant", lambda: Constant(torch.tensor([2.0, 1.0, 1.0], dtype=dtype)), [2, 1, 1])):
+            for k in (None, 1, 2):
+                key = f"{name}/{str(dtype)}/{k}"
+                if only is not None and only != key:
+                    continue
+                x = torch.tensor([1.0, -2.0, 3.0, 0.5], dtype=dtype, requires_grad=True)
+                b = torch.tensor([2.0, 1.0, -1.0, 4.0], dtype=dtype)
+                h = (x * b) * (2.0 ** -E)
+                ys = [((k_ + 1) * h * (2.0 ** E)).sum() for k_ in range(3)]
+                err = None
+                try:
+                    backward(ys, mk(), inputs=[x], parallel_chunk_size=k)
+                except Exception as e:  # noqa: BLE001
+                    err = type(e).__name__
+                exp = [float(sum(Fraction(wi) * (i + 1) for i, wi in enumerate(w)) * Fraction(float(bj)))
+                       for bj in b.tolist()]
+                got = None if x.grad is None else x.grad.tolist()
+                chk.cov["evaluations"] = chk.cov.get("evaluations", 0) + 1
+                if err is not None or got is None or any(not (abs(g - e) <= 1e-5 * max(1.0, abs(e))) for g, e in zip(got, exp)):
+                    chk.violation(
+                        f"C01 extreme intermediates ({name}, {dtype}, chunk={k}): J has the rows (k+1)*b, "
+                        f"aggregator(J) = {exp}, but .grad = {got}" + (f" ({err} raised)" if err else ""),
+                        {"kind": "c01-extreme", "key": key})
+                    ok = False
+    return ok
+
+
+F3 = Fraction(1, 3)
+
+
 def run(chk):
     rng = random.Random(1000 + chk.seed)
+    extreme_intermediate_probe(chk)
     n = N_QUICK if chk.tier == "quick" else N_THOROUGH
     cases = [gen_case(rng, i) for i in range(n)]
     chk.cov["rule"] = (
@@ -334,6 +392,8 @@ def run(chk):
 
 
 def replay(chk, obj):
+    if obj.get("kind") == "c01-extreme":
+        return extreme_intermediate_probe(chk, only=obj["key"])
     case = obj["case"]
     models = run_models([case], "c01r")
     ok = judge_case(chk, case, models.get(case["id"]))
